@@ -2,6 +2,8 @@ import Proofs.RdataTextName
 import Proofs.RdataTextB64
 import Proofs.RdataTextIP6e
 import Proofs.RdataTextUtf8
+import Proofs.RdataTextField2
+import Proofs.RdataTextField3
 /-! Records: fields joined by spaces, tails, and the schema-generic round trip through `dns.rdata.from_text` (C05). -/
 namespace Model
 
@@ -18,6 +20,17 @@ def FieldOk (st : Style) (env : PEnv) : FK → FV → Prop
   | .ip4, .b a => ∃ x0 x1 x2 x3, a = [x0, x1, x2, x3] ∧ x0 < 256 ∧ x1 < 256 ∧ x2 < 256 ∧ x3 < 256
   | .ip6, .b a => a.length = 16 ∧ ∀ x ∈ a, x < 256
   | .salt, .b s => (∀ x ∈ s, x < 256) ∧ s.length ≤ 255
+  | .oct16, .n v => v ≤ 65535
+  | .eui n, .b s => (∀ x ∈ s, x < 256) ∧ s.length = n ∧ 0 < n
+  | .hex16x4, .b s => s.length = 8 ∧ ∀ x ∈ s, x < 256
+  | .nsap, .b s => ∀ x ∈ s, x < 256
+  | .rdtype, .n v => v ≤ 65535
+  | .algoName, .n v => v ≤ 255
+  | .scheme, .n v => v ≤ 255
+  | .ctype, .n v => v ≤ 65535
+  | .keyFlags, .n v => v ≤ 65535
+  | .keyProto, .n v => v ≤ 255
+  | .sigtime, .n v => v ≤ 4294967295
   | _, _ => False
 
 theorem field_ip6 (st : Style) (env : PEnv) (a : Bytes) (hlen : a.length = 16) (ha : ∀ x ∈ a, x < 256) :
@@ -50,6 +63,22 @@ theorem field_rt (st : Style) (env : PEnv) (k : FK) (v : FV) (h : FieldOk st env
   case salt.b s =>
     obtain ⟨t, ht⟩ := field_salt st env s h.1 h.2
     exact ⟨_, _, ht⟩
+  case oct16.n v => exact ⟨_, _, field_oct16 st env v h⟩
+  case eui.b n s => exact ⟨_, _, field_eui st env n s h.1 h.2.1 h.2.2⟩
+  case hex16x4.b s =>
+    obtain ⟨a, b, c, d, e, f, g, i, rfl⟩ := list8 s h.1
+    have hb := h.2
+    obtain ⟨t, ht⟩ := field_hex16x4 st env a b c d e f g i (hb a (by simp)) (hb b (by simp)) (hb c (by simp))
+      (hb d (by simp)) (hb e (by simp)) (hb f (by simp)) (hb g (by simp)) (hb i (by simp))
+    exact ⟨_, _, ht⟩
+  case nsap.b s => exact ⟨_, _, field_nsap st env s h⟩
+  case rdtype.n v => obtain ⟨t, ht⟩ := field_rdtype st env v h; exact ⟨_, _, ht⟩
+  case algoName.n v => obtain ⟨t, ht⟩ := field_algoName st env v h; exact ⟨_, _, ht⟩
+  case scheme.n v => obtain ⟨t, ht⟩ := field_scheme st env v h; exact ⟨_, _, ht⟩
+  case ctype.n v => obtain ⟨t, ht⟩ := field_ctype st env v h; exact ⟨_, _, ht⟩
+  case keyFlags.n v => exact ⟨_, _, field_keyFlags st env v h⟩
+  case keyProto.n v => exact ⟨_, _, field_keyProto st env v h⟩
+  case sigtime.n v => obtain ⟨t, ht⟩ := field_sigtime st env v h; exact ⟨_, _, ht⟩
 
 def FieldsOk (st : Style) (env : PEnv) : List FK → List FV → Prop
   | [], [] => True
@@ -89,12 +118,15 @@ theorem flatMap_singleton_map {α β : Type} (f : α → β) (l : List α) : l.f
 
 /-! ## tails -/
 
-def TailOk (st : Style) : TK → Option FV → Prop
+def TailOk (st : Style) (vals : List FV) : TK → Option FV → Prop
   | .none, none => True
   | .hex, some (.b d) => d ≠ [] ∧ (∀ x ∈ d, x < 256) ∧ ChunkOk st.hexChunk st.hexSep
   | .b64 fixed0, some (.b d) => d ≠ [] ∧ (∀ x ∈ d, x < 256) ∧ ChunkOk (if fixed0 then 0 else st.b64Chunk) st.b64Sep
   | .txt, some (.bl ss) => ss ≠ [] ∧ ∀ s ∈ ss, (∀ c ∈ s, c < 256) ∧ s.length ≤ 255
   | .optCstr, some (.b s) => (∀ c ∈ s, c < 256) ∧ s.length ≤ 255
+  | .keyB64, some (.b d) =>
+    (keyIsNoKey vals = true ∧ d = []) ∨
+    (keyIsNoKey vals = false ∧ d ≠ [] ∧ (∀ x ∈ d, x < 256) ∧ ChunkOk st.b64Chunk st.b64Sep)
   | _, _ => False
 
 def HeadNotHash (toks : List Tok) : Prop := ∀ t, toks.head? = some t → NotHash t
@@ -128,14 +160,24 @@ theorem parseTxt_quoted (E : Bytes → List Nat) (ss : List Bytes)
     have hle : ¬ s.length > 255 := by omega
     simp [parseTxt, hu, ih (fun x hx => h x (by simp [hx])), hle]
 
-theorem tail_rt (st : Style) (tk : TK) (tail : Option FV) (h : TailOk st tk tail) :
+theorem tail_rt (st : Style) (vals : List FV) (tk : TK) (tail : Option FV) (h : TailOk st vals tk tail) :
     ∃ items : List (List Nat × List Tok),
       printTail st tk tail = some (items.map (·.1)) ∧ (∀ p ∈ items, Lexes p.1 p.2) ∧
-      parseTail tk (items.flatMap (·.2)) = some tail ∧ HeadNotHash (items.flatMap (·.2)) := by
+      parseTail vals tk (items.flatMap (·.2)) = some tail ∧ HeadNotHash (items.flatMap (·.2)) := by
   cases tk <;> cases tail <;> simp only [TailOk] at h <;> try exact h.elim
   case none.none =>
     exact ⟨[], by simp [printTail], by simp, by simp [parseTail], by intro t ht; simp at ht⟩
   all_goals rename_i v; cases v <;> simp only [TailOk] at h <;> try exact h.elim
+  case keyB64.some.b d =>
+    rcases h with ⟨hk, rfl⟩ | ⟨hk, hne, hd, hc⟩
+    · refine ⟨[([], [])], by simp [printTail, b64Encode, wordbreak, chunksOf, joinSep], ?_, by simp [parseTail, hk],
+        by intro t ht; simp at ht⟩
+      intro p hp; simp at hp; subst hp; exact lexes_nil
+    · have hnil : b64Encode d ≠ [] := fun e => hne ((b64Encode_eq_nil d).mp e)
+      obtain ⟨hl, hcat, hnh⟩ := blob_tail b64Encode b64Decode d hne (b64Encode_plain d) (b64_roundtrip d hd) hnil _ _ hc
+      refine ⟨[(wordbreak (b64Encode d) st.b64Chunk st.b64Sep, identToks (wordbreakChunks (b64Encode d) st.b64Chunk))],
+        by simp [printTail], by simpa using hl, ?_, by simpa using hnh⟩
+      simp [parseTail, hk, hcat, b64_roundtrip d hd]
   case hex.some.b d =>
     obtain ⟨hne, hd, hc⟩ := h
     have hnil : hexlify d ≠ [] := fun e => hne ((hexlify_eq_nil d).mp e)
@@ -210,11 +252,11 @@ theorem isGenericStart_false (toks : List Tok) (h : HeadNotHash toks) : isGeneri
       · simp [hval]
 
 theorem record_roundtrip (tn : String) (sch : Schema) (hsch : schemaOf tn = some sch) (st : Style) (env : PEnv)
-    (vals : List FV) (tail : Option FV) (hf : FieldsOk st env sch.fields vals) (ht : TailOk st sch.tail tail)
+    (vals : List FV) (tail : Option FV) (hf : FieldsOk st env sch.fields vals) (ht : TailOk st vals sch.tail tail)
     (hchk : sch.check vals tail = true) :
     ∃ text, printRec sch st vals tail = some text ∧ fromTextRdata (some tn) env text = some (.known vals tail) := by
   obtain ⟨fi, fp, fl, fpa, fnh, _⟩ := fields_rt st env sch.fields vals hf
-  obtain ⟨ti, tp, tl, tpa, tnh⟩ := tail_rt st sch.tail tail ht
+  obtain ⟨ti, tp, tl, tpa, tnh⟩ := tail_rt st vals sch.tail tail ht
   let items : List (List Nat × List Tok) := fi.map (fun p => (p.1, [p.2])) ++ ti
   have hitems : ∀ p ∈ items, Lexes p.1 p.2 := by
     intro p hp
